@@ -323,47 +323,49 @@ Proof.
     apply negb_true_iff, mem_false in Hc. auto.
 Qed.
 
-Lemma alloc_levels_inv lvls : forall num existing down o perms acc cands ex0 num0,
+Lemma alloc_levels_inv lvls : forall num exch existing down o perms acc cands ex0 num0,
   Forall (level_ok cands) lvls ->
   NoDup acc -> (forall c, In c acc -> In c cands /\ ~ In c ex0 /\ ~ In c down) ->
   (forall x, In x existing <-> In x ex0 \/ In x acc) ->
   (length acc + num = num0)%nat ->
-  let '(acc', rem) := alloc_levels lvls num existing down o perms acc in
+  let '(acc', rem) := alloc_levels lvls num exch existing down o perms acc in
   NoDup acc' /\ (forall c, In c acc' -> In c cands /\ ~ In c ex0 /\ ~ In c down) /\
   (length acc' + rem = num0)%nat.
 Proof.
-  induction lvls as [|l ls IH]; intros num existing down o perms acc cands ex0 num0 Hok Hnd Hacc Hex Hlen; simpl.
+  induction lvls as [|l ls IH]; intros num exch existing down o perms acc cands ex0 num0 Hok Hnd Hacc Hex Hlen; simpl.
   - auto.
   - destruct num as [|n]; [auto|].
     apply Forall_cons_iff in Hok as [[Hl1 Hl2] Hoks].
     set (doms := shuffle (hd [] perms) (map snd l)).
-    destruct (pick_n (S n) existing down doms o) as [chosen o'] eqn:Hp.
+    set (avoid := domain_members exch (length ls) l ++ existing).
+    destruct (pick_n (S n) avoid down doms o) as [chosen o'] eqn:Hp.
     assert (Hperm : Permutation (concat doms) (level_hosts l)).
     { unfold doms, level_hosts. apply Permutation_concat_compat, shuffle_perm. }
     assert (Hnd' : NoDup (concat doms)). { eapply Permutation_NoDup; [symmetry; eauto|auto]. }
     assert (Hsub : forall h, In h (concat doms) -> In h cands).
     { intros h Hh. apply Hl2. eapply Permutation_in; eauto. }
-    pose proof (pick_n_props (S n) existing down doms o cands Hnd' Hsub) as Hpp.
+    pose proof (pick_n_props (S n) avoid down doms o cands Hnd' Hsub) as Hpp.
     rewrite Hp in Hpp. simpl in Hpp. destruct Hpp as (Hc1 & Hc2 & Hc3).
-    apply (IH _ _ _ _ _ _ cands ex0 num0); auto.
+    apply (IH _ _ _ _ _ _ _ cands ex0 num0); auto.
     + apply NoDup_app_iff. repeat split; auto.
-      intros x Hxa Hxc. destruct (Hc3 x Hxc) as (_ & Hne & _). apply Hne, Hex; auto.
+      intros x Hxa Hxc. destruct (Hc3 x Hxc) as (_ & Hne & _). apply Hne. unfold avoid.
+      apply in_or_app. right. apply Hex; auto.
     + intros c Hc. apply in_app_or in Hc as [Hc|Hc]; auto.
       destruct (Hc3 c Hc) as (H1 & H2 & H3). repeat split; auto.
-      intros He. apply H2, Hex; auto.
+      intros He. apply H2. unfold avoid. apply in_or_app. right. apply Hex; auto.
     + intros x. rewrite !in_app_iff, Hex. tauto.
     + rewrite app_length. lia.
 Qed.
 
-Lemma alloc_sound_lemma idx cands num existing down o perms R :
+Lemma alloc_sound_lemma idx cands num exch existing down o perms R :
   Forall (level_ok cands) idx ->
-  allocate idx num existing down o perms = Some R ->
+  allocate idx num exch existing down o perms = Some R ->
   length R = num /\ NoDup R /\
   (forall r, In r R -> In r cands /\ ~ In r existing /\ ~ In r down).
 Proof.
   unfold allocate. intros Hok H.
-  pose proof (alloc_levels_inv (rev idx) num existing down o perms [] cands existing num) as Hinv.
-  destruct (alloc_levels (rev idx) num existing down o perms []) as [acc rem].
+  pose proof (alloc_levels_inv (rev idx) num exch existing down o perms [] cands existing num) as Hinv.
+  destruct (alloc_levels (rev idx) num exch existing down o perms []) as [acc rem].
   destruct rem; [|discriminate]. inversion H; subst.
   destruct Hinv as (H1 & H2 & H3); simpl; auto.
   - apply Forall_rev; auto.
@@ -373,36 +375,36 @@ Proof.
   - repeat split; auto; try lia; apply H2; auto.
 Qed.
 
-Lemma alloc_all_or_nothing_lemma idx num existing down o perms :
-  allocate idx num existing down o perms = None \/
-  exists R, allocate idx num existing down o perms = Some R /\ length R = num.
+Lemma alloc_all_or_nothing_lemma idx num exch existing down o perms :
+  allocate idx num exch existing down o perms = None \/
+  exists R, allocate idx num exch existing down o perms = Some R /\ length R = num.
 Proof.
   unfold allocate.
-  pose proof (alloc_levels_inv (rev idx) num existing down o perms [] [] existing num) as Hinv.
-  destruct (alloc_levels (rev idx) num existing down o perms []) as [acc rem] eqn:He.
+  pose proof (alloc_levels_inv (rev idx) num exch existing down o perms [] [] existing num) as Hinv.
+  destruct (alloc_levels (rev idx) num exch existing down o perms []) as [acc rem] eqn:He.
   destruct rem; [|left; auto]. right. exists acc. split; auto.
   (* length follows from the counting part of the invariant, which needs no well-formedness *)
   clear Hinv.
   assert (Hcount : forall lvls n ex o p acc acc' rem,
-             alloc_levels lvls n ex down o p acc = (acc', rem) ->
+             alloc_levels lvls n exch ex down o p acc = (acc', rem) ->
              (length acc' + rem <= length acc + n)%nat /\ (length acc + n <= length acc' + rem + 0 \/ True)%nat).
   { intros; split; [|auto].
     revert n ex o0 p acc0 acc' rem H. induction lvls as [|l ls IH]; intros n ex o0 p acc0 acc' rem H; simpl in H.
     - inversion H; subst; lia.
     - destruct n; [inversion H; subst; lia|].
-      destruct (pick_n (S n) ex down (shuffle (hd [] p) (map snd l)) o0) as [ch o'] eqn:Hp.
+      destruct (pick_n (S n) (domain_members exch (length ls) l ++ ex) down (shuffle (hd [] p) (map snd l)) o0) as [ch o'] eqn:Hp.
       apply IH in H. rewrite app_length in H.
-      destruct (pick_n_sel (S n) ex down (shuffle (hd [] p) (map snd l)) o0) as (_ & Hl & _).
+      destruct (pick_n_sel (S n) (domain_members exch (length ls) l ++ ex) down (shuffle (hd [] p) (map snd l)) o0) as (_ & Hl & _).
       rewrite Hp in Hl. simpl in Hl. lia. }
   assert (Hexact : forall lvls n ex o p acc acc' rem,
-             alloc_levels lvls n ex down o p acc = (acc', rem) ->
+             alloc_levels lvls n exch ex down o p acc = (acc', rem) ->
              (length acc' + rem = length acc + n)%nat).
   { induction lvls as [|l ls IH]; intros n ex o0 p acc0 acc' rem H; simpl in H.
     - inversion H; subst; lia.
     - destruct n; [inversion H; subst; lia|].
-      destruct (pick_n (S n) ex down (shuffle (hd [] p) (map snd l)) o0) as [ch o'] eqn:Hp.
+      destruct (pick_n (S n) (domain_members exch (length ls) l ++ ex) down (shuffle (hd [] p) (map snd l)) o0) as [ch o'] eqn:Hp.
       apply IH in H. rewrite app_length in H.
-      destruct (pick_n_sel (S n) ex down (shuffle (hd [] p) (map snd l)) o0) as (_ & Hl & _).
+      destruct (pick_n_sel (S n) (domain_members exch (length ls) l ++ ex) down (shuffle (hd [] p) (map snd l)) o0) as (_ & Hl & _).
       rewrite Hp in Hl. simpl in Hl. lia. }
   apply Hexact in He. simpl in He. lia.
 Qed.
